@@ -11,6 +11,8 @@ import (
 	"os"
 	"path/filepath"
 	"sort"
+	"sync"
+	"sync/atomic"
 	"time"
 
 	"github.com/meshplus/bitxhub-kit/crypto"
@@ -43,6 +45,7 @@ type Options struct {
 	LogToStderr bool
 	NoRouter    bool // do not feed executed blocks to the router monitor
 	RootMon     bool // compare every block's state-store changes with its journal / state root (rootmon.go)
+	ReaderMon   bool // a concurrent reader polls the chain ledger while blocks are executed and persisted
 }
 
 // Key is a deterministic secp256k1 account.
@@ -106,6 +109,34 @@ type Replica struct {
 	RootJournals int
 	RootAccounts int
 	rootPrev     map[string][]byte
+
+	// reader monitor (ReaderMon): what a concurrent reader of the chain ledger saw
+	readerMu       sync.Mutex
+	ReaderFindings []Finding
+	ReaderPolls    int64
+}
+
+// readerPoll is one look of a concurrent reader (an API call, the syncer): whatever height and head hash the
+// chain meta names must already be answerable by the indexes and the block file.
+func (r *Replica) readerPoll() {
+	m := r.L.GetChainMeta()
+	if m == nil || m.Height == 0 || m.BlockHash == nil {
+		return
+	}
+	add := func(sig, detail string) {
+		r.readerMu.Lock()
+		if len(r.ReaderFindings) < 4 {
+			r.ReaderFindings = append(r.ReaderFindings, Finding{sig, detail})
+		}
+		r.readerMu.Unlock()
+	}
+	if h := r.L.GetBlockHash(m.Height); h == nil || h.String() != m.BlockHash.String() {
+		add("reader:meta-ahead-of-height-index", fmt.Sprintf("chain meta names height %d with head %s, GetBlockHash(%d) answers %v at that moment", m.Height, m.BlockHash, m.Height, h))
+		return
+	}
+	if b, err := r.L.GetBlockByHash(m.BlockHash, false); err != nil || b == nil || b.BlockHeader == nil || b.BlockHeader.Number != m.Height {
+		add("reader:meta-ahead-of-block", fmt.Sprintf("chain meta names height %d with head %s, GetBlockByHash answers %v at that moment", m.Height, m.BlockHash, err))
+	}
 }
 
 // TakeRouterFindings returns and clears the router monitor's findings.
@@ -265,6 +296,25 @@ func (r *Replica) ExecBlockAt(h uint64, txs []pb.Transaction, ts int64, local []
 	blk := &pb.Block{
 		BlockHeader:  &pb.BlockHeader{Number: h, Timestamp: ts},
 		Transactions: &pb.Transactions{Transactions: txs},
+	}
+	// only while a block is appended at the head: a rollback (a block fed at or below the head) rewrites the
+	// stores in place and its intermediate states are not what the statement is about
+	if r.Opts.ReaderMon && h == r.Height()+1 {
+		stop := make(chan struct{})
+		done := make(chan struct{})
+		go func() {
+			defer close(done)
+			for {
+				select {
+				case <-stop:
+					return
+				default:
+				}
+				r.readerPoll()
+				atomic.AddInt64(&r.ReaderPolls, 1)
+			}
+		}()
+		defer func() { close(stop); <-done }()
 	}
 	r.Exec.ExecuteBlock(&pb.CommitEvent{Block: blk, LocalList: local})
 	select {
